@@ -6,6 +6,7 @@ open SqliteConn Drv
 table generated from the current source; content = a version counter).
   `reset`                                   → `reset`
   `table`                                   → `ok=<0|1> noleak=<0|1> oneconn=<0|1> secs=<n> ops=<n> unknowns=<n>`
+  `final`                                   → `same=<0|1> pend=<0|1> open=<0|1>`  (committed content equal; shared connection has uncommitted changes / is open)
   `new|<viaCreate 0|1>`                     → `store=<i> given=<0|1>`
   `sec|<obj or ->|<section>|<ok>|<wrote>`   → `single=<res>/<onShared> percall=<res> open=<0|1> intx=<0|1> pend=<0|1> same=<0|1> s+<opened>/<closed> p+<opened>/<closed>`
 `<res>` is `ok`, `err`, `closed`, `nostore` or `nosec`; `<ok>`/`<wrote>` are the oracle's answers for this
@@ -30,6 +31,8 @@ def step (st : St2) (line : String) : St2 × String :=
   | ["reset"] => ({}, "reset")
   | ["table"] =>
     (st, s!"ok={b01 (tableOk table)} noleak={b01 (tableNoLeak table)} oneconn={b01 (instanceProvider table)} secs={table.secs.length} ops={table.ops.length} unknowns={table.unknowns}")
+  | ["final"] =>
+    (st, s!"same={b01 (st.s.committed == st.p.committed)} pend={b01 st.s.pending.isSome} open={b01 st.s.sharedOpen}")
   | ["new", v] =>
     match parseBool? v with
     | none => (st, "bad-op")
